@@ -96,11 +96,11 @@ impl Monitor for C06 {
         // an explicit check stores exactly what the query predicted
         if let Op::CheckSlashing { .. } = c.op {
             out.count("c06.explicit_checks");
-            if (post.raw_pool_b, post.raw_pool_s, post.raw_rb, post.raw_rs) != (pre.pool_b, pre.pool_s, pre.rb, pre.rs) {
+            if (post.raw_pool_b, post.raw_pool_s) != (pre.pool_b, pre.pool_s) {
                 out.violation(
                     P,
                     "check_stores_prediction",
-                    format!("CheckSlashing stored pools/rates ({},{},{},{}) but the query before it reported ({},{},{},{})", post.raw_pool_b, post.raw_pool_s, post.raw_rb, post.raw_rs, pre.pool_b, pre.pool_s, pre.rb, pre.rs),
+                    format!("CheckSlashing stored pools ({},{}) but the query before it reported ({},{})", post.raw_pool_b, post.raw_pool_s, pre.pool_b, pre.pool_s),
                 );
             }
             if pre.raw_pool_b + pre.raw_pool_s > pre.total_delegated {
